@@ -52,7 +52,7 @@ func init() {
 
 // argument expressions, one or more per operand kind (the property's list) plus boundary numbers and awkward strings
 var kindArgs = []string{
-	"1", "2.5", "true", `""`, `"abc"`, "[1,2]", `{"a":1}`, `("a" + 1)`, `json_decode("null")`, "@nosuch",
+	"1", "2.5", "true", `""`, `"abc"`, "[1,2]", `{"a":1}`, `("a" + 1)`, `json_parse("null")`, "@nosuch",
 	"func(a) {return a}", "func(a,b) {return a . b}",
 	"9223372036854775807", "-9223372036854775807 - 1", "0", "-1", "1e308", "-0.0", "0x7fffffffffffffff", "1.5e-320",
 	`"%d"`, `"%s%s%s"`, `"%"`, `"("`, `"[a-"`, `"\."`, `"%Y-%m-%dT%H:%M:%SZ"`, `"héllo"`, `"\xff\xfe"`, `"1,2;3"`, `"-5"`, "[]", "{}", `[1,[2,[3]]]`,
